@@ -48,7 +48,7 @@ def encode_case(schema, cfg, doc, update, which="c"):
     return " ".join(out)
 
 
-def gen_cases(seed, n, **genkw):
+def gen_cases(seed, n, p_update=0.25, **genkw):
     g = Gen(seed, **genkw)
     cases = []
     for i in range(n):
@@ -61,7 +61,7 @@ def gen_cases(seed, n, **genkw):
             doc = g.doc_for(schema, p_valid=1.0, p_unknown=0.0, p_present=1.0)
         else:
             doc = g.arbitrary_doc()
-        update = g.r.random() < 0.25
+        update = g.r.random() < p_update
         cases.append({"schema": schema, "config": cfg, "document": doc, "update": update})
     return cases
 
